@@ -89,7 +89,7 @@ EdgeKey(r) == {<<r.a, r.b>>, <<InvRef(r.b), InvRef(r.a)>>}
 Init0(cfg) == [ver |-> cfg.version,
                guess |-> IF cfg.version = "none" THEN "gfa2" ELSE cfg.version,
                queue |-> <<>>, hdr |-> <<>>, lines |-> <<>>, orph |-> FALSE,
-               vlevel |-> cfg.vlevel]
+               vlevel |-> cfg.vlevel, dialect |-> cfg.dialect, explicit |-> cfg.version # "none"]
 
 IdxNamed(st, id) == {i \in DOMAIN st.lines : Named(st.lines[i]) /\ st.lines[i].name = id}
 NamesOf(st) == {st.lines[i].name : i \in {j \in DOMAIN st.lines : Named(st.lines[j])}}
@@ -383,6 +383,29 @@ Rename(st, old, new) ==
             ELSE [l1 EXCEPT !.refs = SubstRefs(l1.refs, old, new)]]])}
       \cup (IF st.orph THEN {Fail(st, "NotUniqueError")} ELSE {})   \* an orphan placeholder may carry the name
 
+\* --- explicit validation of the Gfa: references resolved; rGFA dialect rules -------
+HasTag(l, n, t) == \E i \in DOMAIN l.tagn : l.tagn[i] = n /\ l.tagt[i] = t
+RgfaSegOK(l) == HasTag(l, "SN", "Z") /\ HasTag(l, "SO", "i") /\ HasTag(l, "SR", "i")
+RgfaLinkOK(l) == l.f[1] = "0M" /\ \A i \in DOMAIN l.tagn : l.tagn[i] \in {"SR", "L1", "L2"} => l.tagt[i] = "i"
+RgfaContentBad(s) ==
+  \/ s.hdr # <<>>
+  \/ \E i \in DOMAIN s.lines : s.lines[i].rt \in {"C", "P"}
+  \/ \E i \in DOMAIN s.lines : s.lines[i].rt = "S" /\ ~RgfaSegOK(s.lines[i])
+  \/ \E i \in DOMAIN s.lines : s.lines[i].rt = "L" /\ ~RgfaLinkOK(s.lines[i])
+\* result classes of gfa.validate() in document state s (the state itself is not changed)
+ValidateRes(s) ==
+  IF PlaceholderIds(s) # {} \/ VirtLinkKeys(s) # {} THEN {"Error"}           \* undefined references
+  ELSE IF s.dialect = "rgfa" THEN
+         IF s.ver # "gfa1" THEN
+            \* the dialect implies GFA1 (C13); a version-neutral document (the version was only
+            \* guessed at the end of the input) may be refused or taken as GFA1
+            (IF \E i \in DOMAIN s.lines : LineVersion(s.lines[i]) = "gfa2" THEN {"VersionError"}
+             ELSE IF \E i \in DOMAIN s.hdr : s.hdr[i].t = "VN:Z:2.0" THEN {"VersionError"}
+             ELSE IF s.explicit THEN {"VersionError"}
+             ELSE {"VersionError", "ok"})
+         ELSE IF RgfaContentBad(s) THEN {"Error"} ELSE {"ok"}
+  ELSE {"ok"}
+
 \* --- whole-document entry points: Gfa(text | list), Gfa.from_file -------------
 RECURSIVE AddAll(_, _)
 AddAll(st, q) ==
@@ -392,10 +415,10 @@ AddAll(st, q) ==
 \* reference validation, which refuses a document with undefined references
 Load(st, ls) ==
   LET fin == UNION {IF a.res # "ok" THEN {a} ELSE ProcessQueue(a.st) : a \in AddAll(st, ls)} IN
-  Commit(st, fin) \cup
-    UNION {{Fail(st, "Error"), [st |-> f.st, res |-> "Error"]} :
-             f \in {x \in fin : x.res = "ok" /\ st.vlevel > 0 /\
-                                 (PlaceholderIds(x.st) # {} \/ VirtLinkKeys(x.st) # {})}}
+  IF st.vlevel = 0 THEN Commit(st, fin)
+  ELSE UNION {IF f.res # "ok" THEN {[st |-> st, res |-> f.res]}
+              ELSE UNION {IF r = "ok" THEN {f} ELSE {Fail(st, r), [st |-> f.st, res |-> r]} : r \in ValidateRes(f.st)}
+              : f \in fin}
     \* (read_file on an existing Gfa keeps what it loaded when the final validation fails;
     \*  a failing constructor leaves no object at all)
 
@@ -421,6 +444,7 @@ Step(st, op) ==
     [] op.k = "settag" -> SetTag(st, op.id, op.l)
     [] op.k = "deltag" -> DelTag(st, op.id, op.l)
     [] op.k = "load"  -> Load(st, op.ls)
+    [] op.k = "validate" -> {[st |-> st, res |-> r] : r \in ValidateRes(st)}
     [] op.k = "rsc" -> RemoveSmallComponents(st, op.n)
     [] op.k = "rsl" -> RemoveSelfLinks(st)
     [] op.k = "unused" -> {Ok(st)}           \* unused_name(): the document is unchanged, the answer is fresh
